@@ -26,6 +26,14 @@ Theorem C08_buffer_is_last_N :
   fs_l (fs_after (fs_new n auto) ops) = lastn n (fs_accepted (fs_new n auto) ops).
 Proof. exact fs_buffer_last_n. Qed.
 
+(* ... hence it never holds more than N events, and exactly min(N, number accepted) of them -
+   it fills up and then stays full for every history *)
+Theorem C08_never_more_than_N :
+  forall n auto ops, (0 < n)%nat ->
+  (length (fs_l (fs_after (fs_new n auto) ops)) <= n)%nat /\
+  length (fs_l (fs_after (fs_new n auto) ops)) = Nat.min n (length (fs_accepted (fs_new n auto) ops)).
+Proof. exact fs_never_more_than_n. Qed.
+
 (* Put rejects exactly: no topics / no ID in manual mode / an ID in automatic mode ... *)
 Theorem C08_put_rejects_exactly :
   forall s m_id tok topics,
